@@ -135,7 +135,7 @@ def c_single(ctx, args):
     return None
 
 
-CHECKS = {'single': c_single, 'rotmap': c_rotmap, 'tr_corr': c_tr_corr, 'tr_dense': c_tr_dense, 'embed_corr': c_embed_corr, 'masked_is_embedded': c_masked_is_embedded,
+CHECKS = {'ctor_fresh': __import__('props.C17', fromlist=['c_ctor_fresh']).c_ctor_fresh, 'single': c_single, 'rotmap': c_rotmap, 'tr_corr': c_tr_corr, 'tr_dense': c_tr_dense, 'embed_corr': c_embed_corr, 'masked_is_embedded': c_masked_is_embedded,
           'state_corr': c_state_corr}
 
 
@@ -154,6 +154,12 @@ def run(ctx):
             do(ctx, 'tr_dense', [be, m, ops1])
     ctx.res.exhaustive = True
     ctx.res.count('one_qubit_maps', 24)
+    # the maps a transformation is built from are fresh objects: rotation maps and identity maps built twice, with a use of the first in between
+    for be in backends:
+        for what in ('rotation_map', 'identity_map'):
+            for use in ('flip', 'library'):
+                for _ in range(max(3, int(3 * B))):
+                    do(ctx, 'ctor_fresh', [be, what, rng.randint(1, 4), rng.randrange(10 ** 6), use], nontrivial=('cf', be, what, use, ctx.res.evaluations))
     for _ in range(int(500 * B)):
         N = rng.randint(1, 6)
         n = rng.randint(1, N)
